@@ -266,10 +266,10 @@ func c02run(env *core.Env, idx int) core.CaseResult {
 	if path == "" {
 		path = "f"
 	}
-	kinds := map[int]string{}     // slot -> handle kind
-	closed := map[int]bool{}      // slot -> closed
-	lastWriter := -1              // slot that last changed the file
-	sawOther := map[int]bool{}    // slot observed another handle's change
+	kinds := map[int]string{}  // slot -> handle kind
+	closed := map[int]bool{}   // slot -> closed
+	lastWriter := -1           // slot that last changed the file
+	sawOther := map[int]bool{} // slot observed another handle's change
 	eofs := 0
 	var done []fsx.Step
 	for i, st := range cs.Steps {
